@@ -443,7 +443,8 @@ def verify_one(args):
             tasks.sort(key=lambda t: 0 if any(x in t[0] for x in slow) else 1)
             raw = robust_map(
                 _solve_vc, tasks, inner, mp,
-                lambda t: (t[0], False, 0.0, "the solver process crashed on this verification condition", "unknown"))
+                lambda t: (t[0], False, 0.0, "the solver process crashed on this verification condition", "unknown"),
+                limit=max(120.0, timeout / 1000.0 * 12))
         else:
             mp = None
             raw = [_solve_vc(t) for t in tasks]
@@ -455,7 +456,8 @@ def verify_one(args):
             dtasks = [tasks[i] + ("deep",) for i in still]
             if mp is not None:
                 again = robust_map(_solve_vc, dtasks, inner, mp,
-                                   lambda t: (t[0], False, 0.0, "the solver process crashed on this verification condition", "unknown"))
+                                   lambda t: (t[0], False, 0.0, "the solver process crashed on this verification condition", "unknown"),
+                                   limit=max(400.0, timeout / 1000.0 * 30))
             else:
                 again = [_solve_vc(t) for t in dtasks]
             for i, x in zip(still, again):
@@ -554,12 +556,57 @@ def verify_one(args):
                 "%s: %s\n%s" % (type(e).__name__, e, traceback.format_exc()[-1500:])}
 
 
-def robust_map(fn, tasks, workers, mp_context, crash_result):
-    """Like Executor.map over a process pool, but a worker that dies (z3 5.1.0 occasionally segfaults
-    inside libz3 when a query is cancelled at its time limit - seen under load, not reproducible per
-    query) does not take the run down: unfinished tasks are re-run in a fresh pool, and after two broken
-    pools each remaining task gets a pool of its own, so that only a task that crashes the solver by
-    itself ends as `crash_result(task)` (reported as a checker error / undecided, never as a verdict)."""
+def _descendants(pid):
+    """Process ids of all descendants of pid (from /proc): a killed worker must not leave its own solver pool behind."""
+    kids = {}
+    try:
+        for d in os.listdir("/proc"):
+            if d.isdigit():
+                try:
+                    with open("/proc/%s/stat" % d) as f:
+                        parts = f.read().rsplit(")", 1)[1].split()
+                    kids.setdefault(int(parts[1]), []).append(int(d))
+                except Exception:
+                    pass
+    except Exception:
+        return []
+    out, todo = [], [pid]
+    while todo:
+        for c in kids.get(todo.pop(), []):
+            out.append(c)
+            todo.append(c)
+    return out
+
+
+def _kill_pool(ex):
+    """A pool whose worker hangs (z3 without an effective time limit) is not waited for: its processes are killed."""
+    import signal
+    try:
+        for p in list(getattr(ex, "_processes", {}).values()):
+            try:
+                for c in _descendants(p.pid):
+                    try:
+                        os.kill(c, signal.SIGKILL)
+                    except Exception:
+                        pass
+                p.kill()
+            except Exception:
+                pass
+        ex.shutdown(wait=False, cancel_futures=True)
+    except Exception:
+        pass
+
+
+def robust_map(fn, tasks, workers, mp_context, crash_result, limit=900.0):
+    """Like Executor.map over a process pool, but neither a worker that DIES nor one that HANGS takes the run down.
+    z3 5.1.0 in a forked worker now and then segfaults inside libz3 when a query is cancelled at its time limit, and -
+    seen once, a 16 GB process spinning for 20 minutes - now and then its time limit does not fire at all.  Unfinished
+    tasks are re-run in a fresh pool (three attempts); what is then still open runs one task at a time in a pool of its
+    own from this thread (three attempts each).  Every wait is bounded by `limit` seconds of wall clock per task; a
+    pool that exceeds it is killed.  Only a task that crashes or hangs by itself ends as `crash_result(task)` (reported as
+    a checker error / undecided, never as a verdict)."""
+    import math
+    from concurrent.futures import TimeoutError as FTimeout
     from concurrent.futures.process import BrokenProcessPool
     results = [None] * len(tasks)
     done = [False] * len(tasks)
@@ -567,29 +614,36 @@ def robust_map(fn, tasks, workers, mp_context, crash_result):
     for attempt in range(3):
         if not pending:
             break
-        with cf.ProcessPoolExecutor(max_workers=min(workers, max(1, len(pending))), mp_context=mp_context) as ex:
+        w = min(workers, max(1, len(pending)))
+        deadline = time.time() + limit * (1 + math.ceil(len(pending) / w))
+        ex = cf.ProcessPoolExecutor(max_workers=w, mp_context=mp_context)
+        try:
             futs = {i: ex.submit(fn, tasks[i]) for i in pending}
             for i, f in futs.items():
                 try:
-                    results[i] = f.result()
+                    results[i] = f.result(timeout=max(1.0, deadline - time.time()))
                     done[i] = True
                 except BrokenProcessPool:
                     pass
+                except FTimeout:
+                    _kill_pool(ex)
+                    break
+        finally:
+            _kill_pool(ex) if any(not done[i] for i in pending) else ex.shutdown(wait=True)
         pending = [i for i in pending if not done[i]]
-    # what is still open runs one task at a time, each in a pool of its own, from THIS thread (forking from a
-    # multi-threaded parent is itself unsafe), up to three times
     for i in pending:
         r = None
         for _ in range(3):
+            ex1 = cf.ProcessPoolExecutor(max_workers=1, mp_context=mp_context)
             try:
-                with cf.ProcessPoolExecutor(max_workers=1, mp_context=mp_context) as ex1:
-                    r = ex1.submit(fn, tasks[i]).result()
+                r = ex1.submit(fn, tasks[i]).result(timeout=limit)
+                ex1.shutdown(wait=True)
                 break
-            except BrokenProcessPool:
+            except (BrokenProcessPool, FTimeout):
                 r = None
+                _kill_pool(ex1)
         results[i] = r if r is not None else crash_result(tasks[i])
     return results
-
 
 
 def verify(targets, tier="quick", mode="normal", tags=None, jobs=16):
